@@ -175,6 +175,21 @@ package builder
 // throw / recovery have their own contract (C14); for D any outcome that respects failure shape is admissible
 //@ axiom throw-any: forall t *throwExpr, d []byte, i int, ok bool, j int, v any :: {D(t, d, i, ok, j, v)} D(t, d, i, ok, j, v)
 //@ axiom recovery-any: forall r *recoveryExpr, d []byte, i int, ok bool, j int, v any :: {D(r, d, i, ok, j, v)} D(r, d, i, ok, j, v)
+
+// --- throw (C14): the handlers are searched innermost first; a handler whose recovery expression
+// fails at the throw position is skipped; without a matching handler the throw fails.
+// ThrowPre(rs, n, l, d, i): every handler frame above index n either does not list l or its recovery
+// expression failed at i.   TH(rs, l, d, i, ok, j, v): outcome of throwing l at i under the stack rs.
+//@ spec func ThrowPre(rs []map[string]any, n int, l string, d []byte, i int) bool
+//@ spec func TH(rs []map[string]any, l string, d []byte, i int, ok bool, j int, v any) bool
+//@ axiom throw-base: forall rs []map[string]any, l string, d []byte, i int :: {ThrowPre(rs, len(rs) - 1, l, d, i)} ThrowPre(rs, len(rs) - 1, l, d, i)
+//@ axiom throw-skip: forall rs []map[string]any, n int, l string, d []byte, i int :: {ThrowPre(rs, n, l, d, i)}
+//@   | ThrowPre(rs, n, l, d, i) && 0 <= n && n < len(rs) && !has(rs[n], l) ==> ThrowPre(rs, n - 1, l, d, i)
+//@ axiom throw-next: forall rs []map[string]any, n int, l string, d []byte, i int, v any :: {ThrowPre(rs, n, l, d, i), D(rs[n][l], d, i, false, i, v)}
+//@   | ThrowPre(rs, n, l, d, i) && 0 <= n && n < len(rs) && has(rs[n], l) && D(rs[n][l], d, i, false, i, v) ==> ThrowPre(rs, n - 1, l, d, i)
+//@ axiom throw-ok: forall rs []map[string]any, n int, l string, d []byte, i int, j int, v any :: {ThrowPre(rs, n, l, d, i), D(rs[n][l], d, i, true, j, v)}
+//@   | ThrowPre(rs, n, l, d, i) && 0 <= n && n < len(rs) && has(rs[n], l) && D(rs[n][l], d, i, true, j, v) ==> TH(rs, l, d, i, true, j, v)
+//@ axiom throw-fail: forall rs []map[string]any, l string, d []byte, i int :: {ThrowPre(rs, 0 - 1, l, d, i)} ThrowPre(rs, 0 - 1, l, d, i) ==> TH(rs, l, d, i, false, i, nil)
 // rule reference: transparent to the expression of the rule carrying that name; undefined rule fails
 //@ #if lr
 //@ pred PlainRule(r *rule) bool = !r.leftRecursive
@@ -388,7 +403,7 @@ package builder
 
 //@ func (p *parser) pushV()
 //@   requires [ctx] Ctx(p)
-//@   modifies p.vstack, all map[string]any
+//@   modifies p.vstack
 //@   ensures [len C02] len(p.vstack) == old(len(p.vstack)) + 1
 //@   ensures [lower C02] forall k int :: 0 <= k && k < old(len(p.vstack)) ==> p.vstack[k] == old(p.vstack[k])
 //@   ensures [fresh-scope C02] p.vstack[old(len(p.vstack))] != nil && len(p.vstack[old(len(p.vstack))]) == 0
@@ -409,7 +424,7 @@ package builder
 // pushRecovery puts exactly the listed labels in force, all bound to the recovery expression
 //@ func (p *parser) pushRecovery(labels []string, expr any)
 //@   requires [ctx] Ctx(p) && IsNode(expr)
-//@   modifies p.recoveryStack, all map[string]any
+//@   modifies p.recoveryStack
 //@   ensures [len C14] len(p.recoveryStack) == old(len(p.recoveryStack)) + 1
 //@   ensures [lower C14] forall k int :: 0 <= k && k < old(len(p.recoveryStack)) ==> p.recoveryStack[k] == old(p.recoveryStack[k])
 //@   ensures [handlers C14] p.recoveryStack[old(len(p.recoveryStack))] != nil && forall l string :: {has(p.recoveryStack[old(len(p.recoveryStack))], l)}
@@ -417,7 +432,7 @@ package builder
 //@     | && (has(p.recoveryStack[old(len(p.recoveryStack))], l) ==> p.recoveryStack[old(len(p.recoveryStack))][l] == expr)
 //@   ensures [ctx] Ctx(p)
 //@   loop#1 invariant [dom C14] forall l string :: {has(m, l)} (has(m, l) == (exists k int :: 0 <= k && k < idx && labels[k] == l)) && (has(m, l) ==> m[l] == expr)
-//@   loop#1 invariant [frame] m != nil
+//@   loop#1 invariant [frame] m != nil && fresh(m)
 //@   loop#1 invariant [others C14] forall x map[string]any :: {mapdom(x)} x != m ==> mapdom(x) == old(mapdom(x)) && mapval(x) == old(mapval(x))
 //@   raw-capacity
 //@   safety C11
@@ -582,7 +597,10 @@ package builder
 // Stacks: the three stacks are as they were (balanced push/pop; no frame replaced).
 // Budget: the expression counter only grows and stays within the budget (C16).
 //@ pred Budget(p *parser) bool = p.ExprCnt >= old(p.ExprCnt) && p.ExprCnt <= p.maxExprCnt
-//@ pred Stacks(p *parser) bool = SameMaps(p.vstack, old(p.vstack)) && SameRules(p.rstack, old(p.rstack)) && SameMaps(p.recoveryStack, old(p.recoveryStack))
+//@ pred Stacks(p *parser) bool = SameMaps(p.vstack, old(p.vstack)) && SameRules(p.rstack, old(p.rstack)) && SameMaps(p.recoveryStack, old(p.recoveryStack)) && RecStable(p)
+// RecStable: the handler maps that were in force at entry still hold the same handlers.
+//@ pred RecStable(p *parser) bool = forall j int :: {old(p.recoveryStack)[j]} 0 <= j && j < len(old(p.recoveryStack)) ==>
+//@   | mapdom(old(p.recoveryStack)[j]) == old(mapdom(p.recoveryStack[j])) && mapval(old(p.recoveryStack)[j]) == old(mapval(p.recoveryStack[j]))
 
 //@ func (p *parser) parseExpr(expr any) (val any, ok bool)
 //@   requires [inv] Inv(p) && InRule(p) && IsNode(expr)
@@ -908,12 +926,14 @@ package builder
 //@   ensures [inv C01] Inv(p) && InRule(p)
 //@   ensures [peg-throw C01] D(expr, p.data, old(p.pt.offset), ok, p.pt.offset, val)
 //@   ensures [shape C01 C14] Shape(p, val, ok)
+//@   ensures [throw C14] TH(old(p.recoveryStack), expr.label, p.data, old(p.pt.offset), ok, p.pt.offset, val)
 //@   ensures [store C05] StoreC(p, ok)
 //@   ensures [stacks C02 C14] Stacks(p)
 //@   ensures [invert C12] p.maxFailInvertExpected == old(p.maxFailInvertExpected)
 //@   ensures [budget C16] Budget(p)
 //@   loop#1 invariant [inv] Inv(p) && InRule(p) && p.pt == old(p.pt) && i < len(p.recoveryStack)
 //@   loop#1 invariant [store C05] StoreSame(p) && LoopStore(p)
+//@   loop#1 invariant [search C14] i >= 0 - 1 && ThrowPre(old(p.recoveryStack), i, expr.label, p.data, old(p.pt.offset))
 //@   loop#1 invariant [mono] Budget(p)
 //@   loop#1 invariant [stacks C02 C14] Stacks(p) && p.maxFailInvertExpected == old(p.maxFailInvertExpected)
 //@   loop#1 decreases [C16] i + 1
